@@ -24,8 +24,10 @@ type c06Cfg struct {
 	Cache   int      `json:"cache"`
 	NotNull bool     `json:"notnull,omitempty"` // declare b NOT NULL
 	// SameTime runs every statement with one constant explicit write_time ("non-decreasing" includes equal).
-	SameTime bool   `json:"sametime,omitempty"`
-	Mode     string `json:"mode"` // c06 | c16
+	SameTime bool `json:"sametime,omitempty"`
+	// KeyLast declares the key as the last column (columns='b, c, a primary key').
+	KeyLast bool   `json:"keylast,omitempty"`
+	Mode    string `json:"mode"` // c06 | c16
 }
 
 type c06Case struct {
@@ -39,14 +41,14 @@ type c06Mut struct {
 }
 
 func (c c06Cfg) id() string {
-	return fmt.Sprintf("%s|n%d|u%v|e%d|c%d|nn%v|st%v|%s", c.Mode, len(c.Keys), c.Updates, c.EPN, c.Cache, c.NotNull, c.SameTime, c.Keys[0])
+	return fmt.Sprintf("%s|n%d|u%v|e%d|c%d|nn%v|st%v|%s", c.Mode, len(c.Keys), c.Updates, c.EPN, c.Cache, c.NotNull, c.SameTime, c.Keys[0]) + fmt.Sprint(c.KeyLast)
 }
 
 func c06Muts(cfg c06Cfg) []c06Mut {
 	var m []c06Mut
 	n := len(cfg.Keys)
 	for i, k := range cfg.Keys {
-		m = append(m, c06Mut{"insert " + k, fmt.Sprintf("insert into %%s values(%s,'v',%d)", k, i)})
+		m = append(m, c06Mut{"insert " + k, fmt.Sprintf("insert into %%s(a,b,c) values(%s,'v',%d)", k, i)})
 	}
 	for _, k := range cfg.Keys {
 		m = append(m, c06Mut{"delete " + k, "delete from %s where a=" + k})
@@ -54,14 +56,14 @@ func c06Muts(cfg c06Cfg) []c06Mut {
 	mid := cfg.Keys[n/2]
 	m = append(m, c06Mut{"delete <=k1", "delete from %s where a<=" + cfg.Keys[1]})
 	m = append(m, c06Mut{"delete >k[n-2]", "delete from %s where a>" + cfg.Keys[n-2]})
-	m = append(m, c06Mut{"insert dup-tail", fmt.Sprintf("insert into %%s values(%s,'v',%d),(%s,'v',0)", cfg.Keys[n-1], n-1, cfg.Keys[0])})
-	m = append(m, c06Mut{"insert null key", "insert into %s values(NULL,'v',0)"})
+	m = append(m, c06Mut{"insert dup-tail", fmt.Sprintf("insert into %%s(a,b,c) values(%s,'v',%d),(%s,'v',0)", cfg.Keys[n-1], n-1, cfg.Keys[0])})
+	m = append(m, c06Mut{"insert null key", "insert into %s(a,b,c) values(NULL,'v',0)"})
 	m = append(m, c06Mut{"insert all", func() string {
 		var vs []string
 		for i, k := range cfg.Keys {
 			vs = append(vs, fmt.Sprintf("(%s,'v',%d)", k, i))
 		}
-		return "insert into %s values" + strings.Join(vs, ",")
+		return "insert into %s(a,b,c) values" + strings.Join(vs, ",")
 	}()})
 	if cfg.Updates {
 		for _, k := range cfg.Keys {
@@ -180,6 +182,7 @@ func c06Cfgs(thorough bool, mode string) []c06Cfg {
 		cfgs = append(cfgs, c06Cfg{Keys: []string{"-1", "2", "2.5", "'a'", "'b'", "x'00'"}, Consts: []string{"-5", "2.2", "'aa'", "x''", "x'01'"}, EPN: 2, Mode: mode})
 		cfgs = append(cfgs, c06Cfg{Keys: intKeys(4), Consts: []string{"0", "5", "2.5", "'x'"}, Updates: true, EPN: 2, NotNull: true, Mode: mode})
 		cfgs = append(cfgs, c06Cfg{Keys: intKeys(4), Consts: []string{"0", "5", "2.5", "'x'"}, Updates: true, EPN: 2, SameTime: true, Mode: mode})
+		cfgs = append(cfgs, c06Cfg{Keys: intKeys(3), Consts: []string{"0", "4", "2.5", "'x'"}, Updates: true, EPN: 2, KeyLast: true, Mode: mode})
 		return cfgs
 	}
 	for _, e := range []ec{{2, 0}, {2, 100}, {3, 0}, {4, 0}, {4, 100}, {4096, 0}, {4096, 100}} {
@@ -187,6 +190,8 @@ func c06Cfgs(thorough bool, mode string) []c06Cfg {
 	}
 	cfgs = append(cfgs, c06Cfg{Keys: intKeys(5), Consts: []string{"0", "6", "2.5", "'x'"}, Updates: true, EPN: 2, NotNull: true, Mode: mode})
 	cfgs = append(cfgs, c06Cfg{Keys: intKeys(5), Consts: []string{"0", "6", "2.5", "'x'"}, Updates: true, EPN: 4096, Cache: 100, NotNull: true, Mode: mode})
+	cfgs = append(cfgs, c06Cfg{Keys: intKeys(4), Consts: []string{"0", "5", "2.5", "'x'"}, Updates: true, EPN: 2, KeyLast: true, Mode: mode})
+	cfgs = append(cfgs, c06Cfg{Keys: intKeys(4), Consts: []string{"0", "5", "2.5", "'x'"}, Updates: true, EPN: 4096, Cache: 100, KeyLast: true, Mode: mode})
 	cfgs = append(cfgs, c06Cfg{Keys: intKeys(5), Consts: []string{"0", "6", "2.5", "'x'"}, Updates: true, EPN: 2, SameTime: true, Mode: mode})
 	cfgs = append(cfgs, c06Cfg{Keys: intKeys(5), Consts: []string{"0", "6", "2.5", "'x'"}, Updates: true, EPN: 4096, SameTime: true, Mode: mode})
 	for _, e := range []ec{{2, 0}, {3, 0}} {
@@ -244,6 +249,10 @@ func c06Open(cfg c06Cfg) (*c06World, error) {
 	ncols := "a primary key, b, c"
 	if cfg.NotNull {
 		cols = "a primary key, b not null, c"
+		ncols = cols
+	}
+	if cfg.KeyLast {
+		cols = "b, c, a primary key"
 		ncols = cols
 	}
 	if err := c.Create(engine.TableOpts{Columns: cols, EPN: cfg.EPN, Cache: cfg.Cache}); err != nil {
@@ -359,6 +368,9 @@ func c06Worker(raw json.RawMessage) *engine.Result {
 		}
 		if cs.Cfg.SameTime {
 			feat += "|equal-write-times"
+		}
+		if cs.Cfg.KeyLast {
+			feat += "|key-not-first"
 		}
 		for i := range res.Viol {
 			res.Viol[i].Class += feat
